@@ -1520,6 +1520,63 @@ def validate_finalize(rng, n, res):
     res.extra["translation_validation_finalize"] = stats
 
 
+def validate_ping(rng, n, res):
+    """`Output.pinged` on real outputs (plain inputs, adapters, repeated pings) and `Adapter.pinged` on real pass-through and
+    push-based adapters with a recording source, against the translated definitions"""
+    if not all(common.TRANSLATION_STATUS.get(f, {}).get("translated") for f in ("Output_pinged", "Adapter_pinged")):
+        return
+
+    class _Rec:
+        def __init__(self):
+            self.got = []
+
+        def pinged(self, who):
+            self.got.append(who)
+
+    reqs, reals = [], []
+    stats = {"Output_pinged": 0, "Adapter_pinged": 0, "errors": 0, "mismatch": 0}
+    for _ in range(n):
+        if rng.random() < 0.6:
+            out = fm.Output(name="o", info=fm.Info(time=EPOCH, grid=fm.NoGrid(), units="m"))
+            objs = [fm.Input(name=f"i{k}") for k in range(3)] + [fm.adapters.Scale(1.0), fm.adapters.LinearTime()]
+            ids = {id(o): k for k, o in enumerate(objs)}
+            for _k in range(rng.randint(1, 5)):
+                who = rng.choice(objs)
+                before = [[ids[id(o)], None if t is None else us_of(t)] for o, t in out._connected_inputs.items()]
+                try:
+                    out.pinged(who)
+                    real = {"ok": [[ids[id(o)], None if t is None else us_of(t)] for o, t in out._connected_inputs.items()]}
+                except Exception as e:  # noqa
+                    real = {"err": err_class(e)}
+                    stats["errors"] += 1
+                if rng.random() < 0.3 and out._connected_inputs:
+                    out._connected_inputs[rng.choice(list(out._connected_inputs))] = EPOCH + dt.timedelta(hours=rng.randint(0, 5))
+                reqs.append({"fn": "Output_pinged", "args": [before, ids[id(who)], [3, 4]]})
+                reals.append(real)
+        else:
+            adp = rng.choice([fm.adapters.Scale(1.0), fm.adapters.LinearTime(), fm.adapters.NextTime(), fm.adapters.DelayFixed(dt.timedelta(hours=1))])
+            rec = _Rec()
+            adp._source = rec
+            who = fm.Input(name="i")
+            try:
+                adp.pinged(who)
+                real = {"ok": [7 if x is adp else 9 for x in rec.got]}
+            except Exception as e:  # noqa
+                real = {"err": err_class(e)}
+            reqs.append({"fn": "Adapter_pinged", "args": [bool(adp.needs_push), [], 9, 7]})
+            reals.append(real)
+    for rq, real, lv in zip(reqs, reals, _trdriver(reqs)):
+        stats[rq["fn"]] += 1
+        if "err" in real or "err" in lv:
+            agree = real.get("err") == lv.get("err")
+        else:
+            agree = [list(p) if isinstance(p, list) else p for p in lv["ok"]] == real["ok"]
+        if not agree:
+            stats["mismatch"] += 1
+            res.diverge("translation/" + rq["fn"], {"fn": rq["fn"], "args": rq["args"]}, real, lv)
+    res.extra["translation_validation_ping"] = stats
+
+
 def validate(prop, rng, n_per_fn, res):
     """runs the validation for the translated functions owned by `prop`; divergences go to `res`"""
     if prop in ("C13", "C02") and os.path.exists(TRDRIVER):
@@ -1530,6 +1587,8 @@ def validate(prop, rng, n_per_fn, res):
         validate_push_data(rng, max(200, n_per_fn), res)
         validate_rules(rng, max(300, n_per_fn), res)
         validate_connect_loop(rng, max(300, n_per_fn), res)
+    if prop == "C09" and os.path.exists(TRDRIVER):
+        validate_ping(rng, max(150, n_per_fn), res)
     if prop == "C10" and os.path.exists(TRDRIVER):
         validate_spill(rng, max(150, n_per_fn), res)
     if prop in ("C07", "C16") and os.path.exists(TRDRIVER):
